@@ -187,17 +187,35 @@ thread_local! {
 	static LAST_PANIC_LOC: std::cell::RefCell<String> = const { std::cell::RefCell::new(String::new()) };
 }
 
+fn key_json(k: &crate::keys::KeyEvent) -> Value {
+	use crate::keys::KeyCode as K;
+	let (name, arg): (&str, u32) = match &k.0 {
+		K::Char(c) => ("Char", *c as u32),
+		K::Grapheme(_) => ("Grapheme", 0),
+		K::F(n) => ("F", *n as u32),
+		other => (match other {
+			K::UnknownEscSeq => "UnknownEscSeq", K::Backspace => "Backspace", K::BackTab => "BackTab",
+			K::BracketedPasteStart => "BracketedPasteStart", K::BracketedPasteEnd => "BracketedPasteEnd",
+			K::Delete => "Delete", K::Down => "Down", K::End => "End", K::Enter => "Enter", K::Esc => "Esc",
+			K::Home => "Home", K::Insert => "Insert", K::Left => "Left", K::Null => "Null",
+			K::PageDown => "PageDown", K::PageUp => "PageUp", K::Right => "Right", K::Tab => "Tab", K::Up => "Up",
+			_ => "?",
+		}, 0),
+	};
+	json!([name, arg, k.1.bits()])
+}
+
 /// `readkeys`: bytes -> the key events `RawReader` produces, until it returns `None`.
 fn op_readkeys(req: &Value) -> Value {
 	let bytes: Vec<u8> = req.get("bytes").and_then(|x| x.as_array()).map(|a| a.iter().map(|x| x.as_u64().unwrap_or(0) as u8).collect()).unwrap_or_default();
 	let mut r = RawReader::new();
 	r.load_bytes(&bytes);
-	let mut out = vec![];
+	let mut out: Vec<Value> = vec![];
 	let mut guard = 0usize;
 	while let Some(k) = r.read_key() {
-		out.push(format!("{k:?}"));
+		out.push(key_json(&k));
 		guard += 1;
-		if guard > bytes.len() + 4 { out.push("RUNAWAY".into()); break }
+		if guard > bytes.len() + 4 { out.push(json!("RUNAWAY")); break }
 	}
 	let rest: Vec<u8> = r.bytes.iter().copied().collect();
 	json!({"keys": out, "rest": rest, "escaped": r.is_escaped})
